@@ -53,3 +53,12 @@ Definition segA (o p1 p2 : RV3) := Rdot (Rvsub p2 p1) (Rvsub p2 p1).
 Definition segB (o p1 p2 : RV3) := - 2 * Rdot (Rvsub o p1) (Rvsub p2 p1).
 Definition segC (o p1 p2 : RV3) := Rdot (Rvsub o p1) (Rvsub o p1).
 Definition segX (o p1 p2 : RV3) := Rcross (Rvsub p2 p1) (Rvsub o p1).
+
+(* Coulombian surface-charge kernel of a face element seen at height distance h > 0 and in-plane
+   offsets (u, v): the component normal to the face of (o - r')/|o - r'|^3; and its integral over the
+   rectangular face [-a,a] x [-b,b] for an observer at in-plane position (x, y), as ITERATED
+   one-dimensional Riemann integrals (Coquelicot has no two-dimensional integral) *)
+Definition coulomb_kern (h u v : R) : R :=
+  h / (sqrt (u * u + v * v + h * h) * sqrt (u * u + v * v + h * h) * sqrt (u * u + v * v + h * h)).
+Definition face_integral (h x y a b : R) : R :=
+  RInt (fun x' => RInt (fun y' => coulomb_kern h (x - x') (y - y')) (- b) b) (- a) a.
